@@ -57,7 +57,10 @@ def run_check(prop, tier, replay=None):
             ctx.broken("audit:" + p[:60], p, "proof audit failed: " + p)
     # 4. correspondence (always runs if the driver exists: it is also the search for a failing input)
     if all(ctx.lean_target_ok.get(e) for e in exes):
-        mod.correspond(ctx)
+        if replay is not None and hasattr(mod, "replay_case") and replay.get("case"):
+            mod.replay_case(ctx, replay)      # re-run exactly the recorded case on model and implementation
+        else:
+            mod.correspond(ctx)
     else:
         ctx.log("model driver unavailable; implementation-side oracle only")
         if hasattr(mod, "impl_only"):
